@@ -191,7 +191,13 @@ def x_assert(ctx, case):
 
     where = case.get("where", "test")
 
+    from .. import programs as _programs
+    runner_factory = _programs.runner_factory_for(case.get("runner"))
+
     class T(testtools.TestCase):
+        if runner_factory is not None:
+            run_tests_with = runner_factory      # the same TestCase under the Deferred runners
+
         def setUp(self):
             super().setUp()
             if where != "test":
@@ -261,6 +267,11 @@ def x_assert(ctx, case):
                   lambda: {"details of unrelated, freshly made mismatches": sorted(stray), **detail()})
     if not want and how != "assert_that":
         have = observed["details"]
+        # what counts is what travels with the outcome (the run's own traceback is attached after the body
+        # and must find a free name, too)
+        delivered = [e.payload.get("details") for e in log.events if e.name in recorders.OUTCOMES and e.payload]
+        if delivered and delivered[0]:
+            have = {k: v[1] for k, v in delivered[0].items()}
         ok = all(have.get(name) == text.encode("utf8") for name, text in pre)
         for name, text in mdetails:
             hits = [k for k, v in have.items() if v == text.encode("utf8") and
@@ -349,4 +360,5 @@ def run(ctx):
                                if how == "expectThat" else "test",
                                "message": rng.choice(MESSAGES), "verbose": rng.random() < 0.5,
                                "then": rng.choice([None, None, "match_after", "match_in_cleanup", "match_before"]),
+                               "runner": rng.choice([None, None, None, "sync", "async"]),
                                "pre": pre, "details": md})
